@@ -369,10 +369,14 @@ def contract(case, fp, addconv):
                         fo["errs"].append(("ParseError", f["name"]))
                     elif pol == "preserve":
                         fo["value"], fo["active"] = vtext(c), True
-                    else:
-                        if required:
-                            fo["errs"].append(("ParseError", f["name"]))
+                    elif required:
+                        # a required field cannot be excluded
+                        fo["errs"].append(("ParseError", f["name"]))
                         fo["value"], fo["active"] = filled, filled is not None
+                    else:
+                        # dropped by 'exclude': the field counts as not given (its default applies, it satisfies
+                        # nobody's dependency and demands none)
+                        fo["value"], fo["provided"] = filled, False
         outs.append(fo)
         errs += fo["errs"]
 
